@@ -212,14 +212,19 @@ pub fn c08(s: &mut Sess, rng: &mut Rng, n: u64) {
         let mut exp_staging = 0;
         let hexc = |s: &str| hx(s.as_bytes());
         for _ in 0..rng.range(1, 5) {
-            match rng.below(11) {
-                0 => { // orphan blob at its canonical path
+            match rng.below(12) {
+                0 | 11 => { // orphan blob at its canonical path — intact, or (11) TORN: an unreferenced
+                    // leftover whose bytes do not hash to its name (what an Async-mode power loss leaves);
+                    // the scan lists it as an orphan all the same, and a later put of that content
+                    // must replace it
                     let c = contents[3];
                     let h = blake3::hash(c).to_hex().to_string();
-                    if refd.contains(&h) { continue; }
-                    s.op(&format!("plantpath {}/{}/{} {}", hexc(&h[0..2]), hexc(&h[2..4]), hexc(&h[4..]), hx(c)));
+                    if refd.contains(&h) || exp_orph.contains(&h) { continue; }
+                    let torn = rng.chance(1, 2);
+                    let bytes: &[u8] = if torn { &c[..2] } else { c };
+                    s.op(&format!("plantpath {}/{}/{} {}", hexc(&h[0..2]), hexc(&h[2..4]), hexc(&h[4..]), hx(bytes)));
                     exp_orph.insert(h);
-                    s.out.count("c08.orphan");
+                    s.out.count(if torn { "c08.orphan-torn" } else { "c08.orphan" });
                 }
                 1 => { // stray at depth 1 / 2
                     let p = if rng.chance(1, 2) { "junk".to_string() } else { "ab/junk".to_string() };
@@ -298,7 +303,7 @@ pub fn c08(s: &mut Sess, rng: &mut Rng, n: u64) {
         if o != want { s.out.oracle_fail(format!("C08: scan reported `{o}`, an independent directory/index comparison gives `{want}`")); }
         // clean-up: removes exactly the reported garbage, never a referenced blob
         let before = s.op("dump");
-        let mode = rng.below(5);
+        let mode = if exp_orph.is_empty() { rng.below(5) } else { *rng.pick(&[0u64, 1, 2, 3, 3, 3, 4]) };
         if mode == 3 && !exp_orph.is_empty() {
             // an orphan found by the scan becomes referenced before the clean-up runs: a put of the
             // same content after the scan; every clean-up entry point must now leave it alone
@@ -313,6 +318,10 @@ pub fn c08(s: &mut Sess, rng: &mut Rng, n: u64) {
                     if !r.contains("errors=0") { s.out.oracle_fail(format!("C08: quarantine_orphans: {r}")); }
                     let g = s.op(&format!("get {}", hx(b"zz")));
                     if !g.starts_with("found") { s.out.oracle_fail(format!("C08: a blob referenced since the scan was removed by the clean-up: get returned {g}")); }
+                    // C06: whatever lay at the blob's path before (an intact or a torn leftover), the
+                    // acknowledged put reads back exactly its content
+                    let wantg = format!("found {} {}", c.len(), h);
+                    if g != wantg { s.out.oracle_fail(format!("C06: after a put over a leftover file at the blob's path `get` returned `{g}`, the content put is `{wantg}`")); }
                     exp_orph.remove(&h);
                     s.out.count("c08.orphan_becomes_referenced");
                 }
